@@ -51,6 +51,14 @@ mut("C24", "get_bypasses_lock", L,
 
 # ---------------------------------------------------------------- C23
 X = "liquid/builtin/loaders/mixins.py"
+mut("C23", "sync_check_then_act", X,
+    "        try:\n            cached_template = self.cache[cache_key]\n        except KeyError:\n            template = load_func()\n            self.cache[cache_key] = template\n            return template\n\n        if self.auto_reload and not cached_template.is_up_to_date():",
+    "        if cache_key not in self.cache:\n            template = load_func()\n            self.cache[cache_key] = template\n            return template\n\n        cached_template = self.cache[cache_key]\n        if self.auto_reload and not cached_template.is_up_to_date():",
+    "sync path only: membership test and lookup are two steps; needs another THREAD evicting the key in between")
+mut("C23", "fs_read_then_stat_again", "liquid/builtin/loaders/file_system_loader.py",
+    "        mtime = source_path.stat().st_mtime\n        with source_path.open(encoding=self.encoding) as fd:\n            source = fd.read()\n        return source, mtime",
+    "        with source_path.open(encoding=self.encoding) as fd:\n            source = fd.read()\n        return source, source_path.stat().st_mtime",
+    "F14 again: needs an edit from another thread between the read and the stat of one load")
 mut("C23", "cache_key_ignores_namespace_kwarg", X,
     "        with suppress(KeyError):\n            return f\"{args[self.namespace_key]}/{name}\"\n",
     "",
